@@ -56,6 +56,7 @@ func Gen(seed uint64, profile string) *Scenario {
 	case "links":
 		k.inLinks, k.absInLinks, k.outLinks, k.extBack = true, r.Chance(1, 2), r.Chance(3, 4), r.Chance(1, 3)
 		k.viaRootName, k.nestedDeref = r.Chance(1, 6), r.Chance(1, 5)
+		k.concShared = simkit.NewRNG(seed, "pw/links-conc").Chance(1, 6)
 		k.rules, k.specials = r.Chance(1, 4), r.Chance(1, 4)
 	case "spell":
 		k.failedEarlier = r.Chance(1, 6)
@@ -585,6 +586,16 @@ func genRuns(r *simkit.RNG, sc *Scenario, k *knobs, profile string) {
 			p.RtAlias = r.Chance(1, 3)
 		}
 		sc.Runs = []PackRun{p}
+		if k.concShared {
+			// the same Packer is packing another tree (full of outside content) at the same time
+			cr := simkit.NewRNG(sc.Seed, "pw/links-conc-runs")
+			sc.Runs = []PackRun{p, p}
+			sc.Conc, sc.SharedPacker = true, true
+			sc.Opts.Legacy = false
+			sc.Others = []string{"big"}
+			sc.SchedSeed = cr.U64()
+			sc.SchedShape = simkit.Pick(cr, []string{"random", "rr"})
+		}
 	case "spell":
 		n := r.Range(2, 5)
 		for i := 0; i < n; i++ {
